@@ -686,3 +686,23 @@ Lemma alias_forgotten :
   wf_cfg bad_cfg_alias_forgotten = false /\ requires_lock bad_cfg_alias_forgotten s_shell = false
   /\ wf_cfg good_cfg_allow_list = true.
 Proof. vm_compute. auto. Qed.
+
+(* ------------------------------------------------------------------ S28 (fixed in /repo c594d9b) *)
+(* Before the fix a bash call abandoned by its timeout left the command running: the call's
+   instructions went on (emit, append, release, run end) while the End of the command came later.
+   That actor does not obey the discipline, and mutual exclusion fails. *)
+Definition timeout_unfixed_code : list instr :=
+  [IAcq; IStart 0 true; IEmit 0; IApp 0; IRel; IRunEnded; IEnd 0 true true].
+
+Definition timeout_unfixed_sys : nat -> list instr := fun i =>
+  match i with
+  | 0 => timeout_unfixed_code
+  | 1 => compile_actor ref_cfg (AEnv s_write true)
+  | _ => []
+  end.
+
+Lemma timeout_unfixed_refuted :
+  daccept DOut timeout_unfixed_code = false
+  /\ is_open (trace (run timeout_unfixed_sys [0; 0; 0; 0; 0; 1; 1])) 0 = true
+  /\ is_open (trace (run timeout_unfixed_sys [0; 0; 0; 0; 0; 1; 1])) 1 = true.
+Proof. vm_compute. auto. Qed.
